@@ -1026,6 +1026,10 @@ namespace
 				return false;
 			}
 
+			// The header is read ahead and then the position is returned back: make sure that the header is entirely
+			// in the cache (byte code + up to 4 bytes of size + type), the stream may not support seeking
+			binaryStreamReader.Prefetch(1 + sizeof(uint32_t) + 1);
+
 			// Ext format family with fixed data size
 			const auto prevPos = binaryStreamReader.GetPosition();
 			binaryStreamReader.GotoNextByte();
